@@ -192,11 +192,14 @@ var (
 		"a.b.default.svc.cluster.local", "default.svc.cluster.local", "foo.svc.cluster.local", "reviews.default", "reviews",
 		"api.example.com", "example.com", "foo.local.campus.net", "foo.bar.campus.net", "campus.net", "x.svc.", "svc.svc.svc.cluster.local",
 		"10.1.2.3", "2001:db8::1", "Reviews.Default.svc.cluster.local", "foo.com.default.svc.cluster.local", "foo.com",
+		// namespaces that are string prefixes of other namespaces
+		"reviews.shop.svc.cluster.local", "reviews.shop-canary.svc.cluster.local", "db.ns1.svc.cluster.local", "db.ns10.svc.cluster.local",
 		// wildcard service names (ServiceEntry hosts): must never be abbreviated to the bare "*"
 		"*.default.svc.cluster.local", "*.other.svc.cluster.local", "*.local.campus.net", "*.campus.net", "*.example.com", "*.x.default.svc.cluster.local",
 	}
 	proxyDomains = []string{
-		"default.svc.cluster.local", "other.svc.cluster.local", "local.campus.net", "remote.campus.net", "", "example.com",
+		"default.svc.cluster.local", "other.svc.cluster.local", "shop.svc.cluster.local", "shop-canary.svc.cluster.local", "ns1.svc.cluster.local",
+		"local.campus.net", "remote.campus.net", "", "example.com",
 		"svc.cluster.local", ".svc.cluster.local", "cluster.local", "default.svc.", "com",
 	}
 )
@@ -371,32 +374,29 @@ func oracleVhosts(in, out string) {
 	o := wire.Create(out)
 	defer o.Close()
 	s := newState()
-	verdict := ""
+	var v verdicts
 	started := false
 	flush := func() {
 		if started {
 			// domains_unique on the REAL dedupeDomains output
 			seen := map[string]string{}
-			for _, v := range s.vh.vhosts {
-				for _, d := range v.Domains {
+			for _, vh := range s.vh.vhosts {
+				for _, d := range vh.Domains {
 					k := strings.ToLower(d)
-					if prev, ok := seen[k]; ok && verdict == "" {
-						verdict = fmt.Sprintf("FAIL domains-unique domain=%s in %s and %s", wire.Enc(d), wire.Enc(prev), wire.Enc(v.Name))
+					if prev, ok := seen[k]; ok {
+						v.fail("domains-unique", fmt.Sprintf("domain=%s in %s and %s", wire.Enc(d), wire.Enc(prev), wire.Enc(vh.Name)))
 					}
-					seen[k] = v.Name
+					seen[k] = vh.Name
 				}
 			}
-			if verdict == "" {
-				verdict = "OK"
-			}
-			o.Line(verdict)
+			o.Line(v.line())
 		}
-		verdict = ""
+		v = verdicts{}
 	}
 	fail := func(format string, a ...any) {
-		if verdict == "" {
-			verdict = "FAIL " + fmt.Sprintf(format, a...)
-		}
+		msg := fmt.Sprintf(format, a...)
+		clause, detail, _ := strings.Cut(msg, " ")
+		v.fail(clause, detail)
 	}
 	for _, f := range lines {
 		func() {
